@@ -56,4 +56,72 @@ PROPS = {
                              "ctx_events": 10000}},
         "assumptions": COMMON_ASSUMPTIONS,
     },
+    "C06": {
+        "rule": ("every literal is rendered in each permitted form and embedded in 10-20 syntactic contexts that "
+                 "differ in the token following it (end of input, `)`, `}`, `]`, `,`, and/or/xor in word and symbol "
+                 "form with and without whitespace, another list item, call argument first/middle/last, quantifier); "
+                 "the parsed AST's JSON must equal the canonical document of the generated structure. Families: "
+                 "integers (boundaries + random; dec/0x/0X/octal), integer ranges, array indexes (complete boundary "
+                 "table), the complete 256-byte x escape-form table (literal char, \\xhh, \\xHH, \\OOO, mixed; hex "
+                 "pairs with `:`/`-`/`.` in both cases), random byte strings incl. raw strings with the minimal, "
+                 "+1, +2 and 255 hashes and map keys, the complete raw-delimiter x inner-quote-run table, IP "
+                 "spellings, every CIDR prefix length 0..32 and 0..128, ranges, and a table of malformed literals "
+                 "that must be rejected. distinct_nontrivial counts distinct literal spellings."),
+        "quick": [st("rel")],
+        "thorough": [st("rel"), st("dbg")],
+        "floors": {"quick": {"evaluations": 150000, "distinct_nontrivial": 10000, "raw_strings": 500}},
+        "assumptions": COMMON_ASSUMPTIONS + ["the canonical JSON (harness/src/canon.rs) is the documented serialisation"],
+    },
+    "C07": {
+        "rule": ("structures: random well-typed filters (fields, index paths, calls, lists, sets, regex, wildcard, "
+                 "quantifiers; depth 1..4); each is rendered canonically, in EVERY alias combination when it has <=5 "
+                 "alias choice points (else 6 random layouts) with random whitespace, and once with random literal "
+                 "spellings; all renderings must give equal ASTs, byte-identical JSON, equal std hash and equal C-API "
+                 "hash; the JSON must equal the canonical document and the C hash must be FNV-1a of it. mutations: a "
+                 "structural mutation (operator, literal value/kind, index, identifier, quantifier, operand order, "
+                 "association) must change the JSON. distinct_nontrivial counts distinct canonical texts / pairs."),
+        "quick": [st("rel")],
+        "thorough": [st("rel"), st("dbg")],
+        "floors": {"quick": {"evaluations": 30000, "distinct_nontrivial": 8000, "mutation_pairs": 3000,
+                             "structures_with_all_alias_combinations": 3000}},
+        "assumptions": COMMON_ASSUMPTIONS + ["the canonical JSON (harness/src/canon.rs) is the documented serialisation"],
+    },
+    "C09": {
+        "rule": ("int-exhaustive: all lists of <=3 (thorough: <=4) items over the 28 ranges of a 7-point domain x "
+                 "every probe point + absent, under three embeddings into i64 (0..6; MIN,MIN+1,-1,0,1,MAX-1,MAX; "
+                 "around 2^32); ip4/ip6-exhaustive: all lists of <=2 (thorough <=3) items over 15 CIDRs (/29../32 "
+                 "resp. /125../128) and 28 ranges/addresses of an 8-address block x 12 probes incl. neighbours and "
+                 "the other family + absent; random: lists of <=40 ints / <=24 IP items / <=12 byte strings with "
+                 "endpoints drawn around each other and the type extremes, probed at every endpoint +-1. Each list "
+                 "is rendered with random order-preserving layout and literal spellings. distinct_nontrivial = "
+                 "distinct lists (exhaustive families: every list; random: lists with >=2 items)."),
+        "quick": [st("rel")],
+        "thorough": [st("rel"), st("dbg")],
+        "floors": {"quick": {"evaluations": 800000, "distinct_nontrivial": 60000}},
+        "assumptions": COMMON_ASSUMPTIONS,
+    },
+    "C10": {
+        "rule": ("anchors: pattern lengths 0..=40 x 5 pattern families (single byte repeated, alternating, random "
+                 "over {a,b,c}, distinct first/last byte, bytes 0x00/0x80/0xff) x EVERY anchor position 1..len-1 "
+                 "(forced through the verif-hooks override) x ~230 haystacks each (empty, equal, one shorter/longer, "
+                 "pattern at offset 0 / at the very end for 16 total lengths around 16/32/64/128-byte blocks, "
+                 "straddling block boundaries, near-misses in the first/anchor/last byte, random over 1-3 letter "
+                 "alphabets up to 300 bytes; exact-size heap allocations and tails of larger ones); run once with "
+                 "WIREFILTER_USE_AVX2=1 and once with =0; recompile: 50 recompilations with the random anchor must "
+                 "agree. Oracle: naive window search. distinct_nontrivial = distinct (pattern, anchor, mode)."),
+        "quick": [st("rel", name="avx2", env={"WIREFILTER_USE_AVX2": "1"}, extra={"avx2": "1"}),
+                  st("rel", name="scalar", env={"WIREFILTER_USE_AVX2": "0"}, extra={"avx2": "0"}),
+                  st("asan", name="avx2", env={"WIREFILTER_USE_AVX2": "1"}, extra={"avx2": "1"})],
+        "thorough": [st("rel", name="avx2", env={"WIREFILTER_USE_AVX2": "1"}, extra={"avx2": "1"}),
+                     st("rel", name="scalar", env={"WIREFILTER_USE_AVX2": "0"}, extra={"avx2": "0"}),
+                     st("asan", name="avx2", env={"WIREFILTER_USE_AVX2": "1"}, extra={"avx2": "1"}),
+                     st("asan", name="scalar", env={"WIREFILTER_USE_AVX2": "0"}, extra={"avx2": "0"}),
+                     st("dbg", name="avx2", env={"WIREFILTER_USE_AVX2": "1"}, extra={"avx2": "1"})],
+        "floors": {"quick": {"evaluations": 500000, "rel:avx2:searcher_avx2_array": 500,
+                             "rel:avx2:searcher_avx2_boxed": 2000, "rel:scalar:searcher_memmem": 150,
+                             "rel:avx2:searcher_memchr": 1, "rel:avx2:searcher_empty": 1}},
+        "on_death": "sanitizer",
+        "assumptions": COMMON_ASSUMPTIONS + ["the host CPU supports AVX2 (otherwise the run is inconclusive)"],
+        "technique": "runtime monitoring: naive-search oracle over hook-steered SIMD anchor positions, repeated under AddressSanitizer",
+    },
 }
